@@ -162,9 +162,19 @@ for line in sys.stdin:
         W = getattr(mod, ("Binary" if c["fout"] == "binary" else "NDJson") + proto + "Writer")
         rspy = RSpy(sys.modules[mod.__name__ + "._binary"].CodedInputStream) if c.get("trace") and c["fin"] == "binary" else None
         spy = Spy(sys.modules[mod.__name__ + "._binary"].CodedOutputStream) if c.get("trace") and c["fout"] == "binary" else None
+        mode = c.get("mode", "copy")
+        if mode == "with_read":
+            # the documented form: the reader as a context manager, every step read, streams drained; nothing is written
+            with R(src) as r:
+                for wn, rn in steps_of(proto):
+                    v = getattr(r, rn)()
+                    if is_stream(proto, rn):
+                        for _x in v:
+                            pass
+            res["ok"] = True
+            raise StopIteration
         r = R(src)
         w = W(out)
-        mode = c.get("mode", "copy")
         if mode == "copy":
             r.copy_to(w)
         else:
@@ -209,6 +219,8 @@ for line in sys.stdin:
         r.close()
         w.close()
         res["ok"] = True
+    except StopIteration:
+        pass
     except (Exception, Hang) as ex:  # noqa: BLE001
         signal.setitimer(signal.ITIMER_REAL, 0)
         res["ok"] = False
